@@ -129,3 +129,35 @@ def hook_begin(t, rw):
         out[p:p + n] = new
     head = _fin('size_t contentLength ; bool isChunked ;', t[0].line)
     return head + out
+
+
+def hook_mid(t, rw):
+    """hid_cl_block: exception propagation (R8) for a may-throw call inside an `if (...)` header that is NOT inside a try block.
+    `if ( E ) S [else ...]` with the may-throw stub `hs_stoull` in E becomes `_Bool iora_ck = E ; if ( iora_ck ) S [else ...]`; the new declaration is a
+    simple statement, so the extractor's R8 pass adds `if (iora_exc) return;` right after it (the exception leaves the function before S runs) -
+    or `goto catch` if the statement stands inside a try body. Evaluation order and short-circuiting of E are unchanged."""
+    if rw.prefix != 'hid_cl_block':
+        return t
+    out = list(t)
+    k = 0
+    i = 0
+    while i < len(out):
+        x = out[i]
+        if x.kind == 'id' and x.text == 'if' and out[i + 1].text == '(':
+            rp = match_close(out, i + 1)
+            if any(y.kind == 'id' and y.text == 'hs_stoull' for y in out[i + 2:rp]):
+                if i > 0 and out[i - 1].text not in (';', '{', '}'):
+                    raise ExtractionBreak("hid_cl_block: a may-throw call stands in the header of an `if` that is not a plain statement of a block")
+                k += 1
+                L = x.line
+                name = f"iora_c{k}"
+                decl = [Tok('id', '_Bool', L, final=True), Tok('id', name, L, final=True), Tok('op', '=', L)] + out[i + 2:rp] + [Tok('op', ';', L)]
+                new = decl + [x, out[i + 1], Tok('id', name, L, final=True), out[rp]]
+                out[i:rp + 1] = new
+                i += len(decl)
+        i += 1
+    for j, y in enumerate(out):
+        if y.kind == 'id' and y.text in ('while', 'for') and any(z.kind == 'id' and z.text == 'hs_stoull' for z in out[j + 2:match_close(out, j + 1)]):
+            raise ExtractionBreak("hid_cl_block: a may-throw call stands in a loop header")
+    rw.R.notes.append(f"hid_cl_block: {k} `if` header(s) with a may-throw call split into declaration + test (R8 propagation)")
+    return out
